@@ -85,6 +85,16 @@ static void _GD_ShiftFragment(DIRFILE* D, off64_t offset, int fragment,
 
   D->fragment[fragment].frame_offset = offset;
   D->fragment[fragment].modified = 1;
+
+  /* A fragment included by this one inherits this setting when it is parsed,
+   * unless it spells out its own: write the children out as well, so that they
+   * keep the setting they have now. */
+  {
+    int child;
+    for (child = 0; child < D->n_fragment; ++child)
+      if (child != fragment && D->fragment[child].parent == fragment)
+        D->fragment[child].modified = 1;
+  }
   D->flags &= ~GD_HAVE_VERSION;
 
   dreturnvoid();
